@@ -340,7 +340,14 @@ def rule_bytes(ctx):
     # between creation and the two sinks the list of problems is not transformed
     b = fx.fn(MAIN)
     loops = [l for l in hq.for_loops(b["body"]) if hq.calls(l[1], "Prover::prove_all")]
-    pa = hq.calls(loops[0][1], "Prover::prove_all")[0]
+    if not loops:
+        # the results are not consumed by a `for` loop: take the prove_all call wherever it is
+        pas = hq.calls(b["body"], "Prover::prove_all")
+        if len(pas) != 1:
+            raise AnalysisGap("main: expected one call of Prover::prove_all, found %d" % len(pas))
+        pa = pas[0]
+    else:
+        pa = hq.calls(loops[0][1], "Prover::prove_all")[0]
     arg_id = local_id_of(pa["args"][0])
     lets = hq.let_by_id(b["body"])
     chain_methods = []
